@@ -411,6 +411,21 @@ ROUND11 = {
 for _k, _v in ROUND11.items():
     CLAIMED[_k]["text"] = CLAIMED[_k]["text"] + " " + _v
 
+# sentences added in the twelfth round of seeding
+ROUND12 = {
+    "C04": "No converter of convert_component_types decides on the truthiness of the value (an explicit 0 stays 0).",
+    "C06": "Collected errors are de-duplicated by a key that contains their location.",
+    "C07": "No handler of the store ends in a normal return without the description having been published.",
+    "C08": "A cache label produced by a helper is followed into the helper: a format argument counts only when the caller passes it.",
+    "C10": "A str.replace keyed by an entry of the spelling table is a substitution site.",
+    "C11": "The flattening resolves each scope against its own variables (scope-per-item analysis shared with C04/C15, positional scopes included).",
+    "C14": "A serialisation buffer that outlives the call is emptied before it is read back.",
+    "C18": "The names of the archive's own links are collected in normalised form.",
+    "C19": "List values of the status section are split the way they were joined.",
+}
+for _k, _v in ROUND12.items():
+    CLAIMED[_k]["text"] = CLAIMED[_k]["text"] + " " + _v
+
 
 def main():
     checks = []
